@@ -11,18 +11,22 @@ def val(tag, name):
     return {"p": True, "t": cps(str(v))}
 
 
-def run(init_cls, init_sty, hist, H):
+def run(init_cls, init_sty, hist, H, marked=0):
+    """marked (gamma option): bit 0 / 1 - the initial class / style value is HTML(); bit 2 - tokens and declarations handed
+    to add_class / add_style are HTML().  The token algebra does not depend on the marking."""
     kw = {}
     if init_cls["p"]:
-        kw["class"] = uncps(init_cls["t"])
+        kw["class"] = H.HTML(uncps(init_cls["t"])) if marked & 1 else uncps(init_cls["t"])
     if init_sty["p"]:
-        kw["style"] = uncps(init_sty["t"])
+        kw["style"] = H.HTML(uncps(init_sty["t"])) if marked & 2 else uncps(init_sty["t"])
     t = H.Tag("div", kw)
     init = {"cls": val(t, "class"), "sty": val(t, "style")}
     out = []
-    for h in hist:
+    for step, h in enumerate(hist):
         op, tok, pre = h["op"], uncps(h["tok"]), h["pre"]
         rec = {"op": op, "tok": h["tok"], "pre": pre, "res": False, "exc": "none", "self": True, "hasAfter": False}
+        if marked & 4 and op in ("add_class", "add_style") and step % 2 == 0:
+            tok = H.HTML(tok)
         try:
             if op == "add_class":
                 r = t.add_class(tok, prepend=pre)
@@ -56,7 +60,7 @@ class C16(Prop):
             "at least two tokens or a repeated token when an operation is applied, or the css key needs rewriting.")
     assumptions = [
         "class tokens judged are non-empty and whitespace-free (the statement's scope); others only produce DRIFT records",
-        "initial class/style values are plain strings",
+        "class / style values and the tokens handed to the helpers are plain strings or HTML() (the token algebra does not depend on the marking)",
         "whitespace is str.split() whitespace; css keys are ASCII",
     ]
 
@@ -76,8 +80,8 @@ class C16(Prop):
         return len(toks) >= 2 or any(len(uncps(h["cls"]["t"]).split()) >= 2 for h in rec["hist"])
 
     def gens_from_export(self, lines, tier, rnd):
-        return [{"kind": "hist", "cls": ln["init"], "sty": {"p": False, "t": []},
-                 "hist": [{"op": h["op"], "tok": h["tok"], "pre": h["pre"]} for h in ln["hist"]]} for ln in lines]
+        return [{"kind": "hist", "cls": ln["init"], "sty": {"p": False, "t": []}, "marked": [0, 0, 1, 5][i % 4],
+                 "hist": [{"op": h["op"], "tok": h["tok"], "pre": h["pre"]} for h in ln["hist"]]} for i, ln in enumerate(lines)]
 
     def gens_random(self, tier, rnd):
         gens = []
@@ -95,7 +99,10 @@ class C16(Prop):
                 hist.append({"op": op, "tok": cps(tok), "pre": rnd.random() < 0.5})
             sty = rnd.choice([None, None, "q:1;", "k", "", " ", "q:1; "])
             gens.append({"kind": "hist", "cls": {"p": init is not None, "t": cps(init or "")},
-                         "sty": {"p": sty is not None, "t": cps(sty or "")}, "hist": hist})
+                         "sty": {"p": sty is not None, "t": cps(sty or "")}, "hist": hist,
+                         # (HTML() tokens are only added to HTML() values: merging a plain value with an HTML() one stores
+                         #  the plain part escaped - C03 - and a line break between tokens would no longer be whitespace)
+                         "marked": rnd.choice([0, 0, 1, 2, 3, 5, 7])})
         keys = ["a", "a_b", "aB", "AB", "a_B", "aBC", "ABc", "font_size", "backgroundColor", "x", "WebkitBoxFlex", "a__b", "_a", "a_"]
         vals = [None, "v", 1, 2.5, "12px", "a b", 0]
         for _ in range(400 if tier == "quick" else 8000):
@@ -106,7 +113,7 @@ class C16(Prop):
     def execute(self, g):
         import htmltools as H
         if g["kind"] == "hist":
-            init, hist = run(g["cls"], g["sty"], g["hist"], H)
+            init, hist = run(g["cls"], g["sty"], g["hist"], H, g.get("marked", 0))
             return {"k": "hist", "init": init, "hist": hist, "gen": g}
         kw = {k: v for k, v in g["kw"]}
         out = H.css(**kw)
